@@ -543,6 +543,16 @@ func (i *PostingsIterator) nextDocNumAtOrAfter(atOrAfter uint64) (docNum uint64,
 		return 0, false, nil
 	}
 
+	if atOrAfter > math.MaxUint32 {
+		// document numbers are 32-bit, so nothing is at or after this
+		// target (it must not be truncated below): consume the rest
+		i.Actual.AdvanceIfNeeded(math.MaxUint32)
+		if i.Actual.HasNext() {
+			i.Actual.Next()
+		}
+		return 0, false, nil
+	}
+
 	if i.postings == nil || i.postings.postings == i.ActualBM {
 		return i.nextDocNumAtOrAfterClean(atOrAfter)
 	}
